@@ -225,13 +225,15 @@ def driver_path():
     return os.path.join(LEAN, '.lake', 'build', 'bin', 'driver')
 
 
-def print_axioms(module, theorems):
+def print_axioms(module, theorems, extra_imports=None):
     """returns {theorem: set(axioms) or None if missing/failed}"""
     tmpdir = os.path.join(BUILD, 'audit')
     os.makedirs(tmpdir, exist_ok=True)
     path = os.path.join(tmpdir, 'Audit_%s_%d.lean' % (module.replace('.', '_'), os.getpid()))
     with open(path, 'w') as f:
         f.write('import %s\n' % module)
+        for extra in (extra_imports or []):
+            f.write('import %s\n' % extra)
         for t in theorems:
             f.write('#print axioms %s\n' % t)
     rc, out = sh(['lake', 'env', 'lean', path], cwd=LEAN, timeout=1200)
@@ -376,7 +378,7 @@ def proof_step(ctx, module, theorems, extra_targets=None):
         ctx.proof_failure = 'forbidden construct in Lean sources: ' + hits[0]
         ctx.proof_log = '\n'.join(hits)
         return False
-    ax, out = print_axioms(module, theorems)
+    ax, out = print_axioms(module, theorems, [t for t in (extra_targets or []) if t.startswith('BinlogVerif.')])
     bad = []
     for t in theorems:
         if ax[t] is None:
